@@ -31,7 +31,8 @@ def main():
     for a in sys.argv[1:]:
         if a.startswith('--checks='):
             extra_checks = a.split('=', 1)[1].split(',')
-    root = '/verif/seeded'
+    verif = os.environ.get('VERIF_ROOT', '/verif')      # a snapshot of /verif may evaluate while /verif itself is being edited
+    root = os.path.join(verif, 'seeded')
     for name in sorted(os.listdir(root)):
         if args and name not in args:
             continue
@@ -61,7 +62,7 @@ def main():
                 for c in (extra_checks or [prop]):
                     e2 = dict(os.environ, FSIC_REPO=wt, FSIC_VERIF_EVIDENCE=w + '/ev', FSIC_VERIF_REPLAYS=w + '/rp')
                     t0 = time.time()
-                    rcc, outc = run(['/verif/check', c, '--tier', 'quick'], env=e2, cwd='/verif')
+                    rcc, outc = run([os.path.join(verif, 'check'), c, '--tier', 'quick'], env=e2, cwd=verif)
                     viol = [l for l in outc.splitlines() if l.startswith('VIOLATION')]
                     keys = []
                     try:
